@@ -18,7 +18,7 @@ INFO = {
     "outside": ["Textual widgets", "longer sequences"],
     "stubs": ["stand-in for MenuConfigApp's self (vk/ui.py)", "memfs"],
 }
-BUDGET = {"quick": 240, "thorough": 1100}
+BUDGET = {"quick": 240, "thorough": 800}
 
 CONF = "/m/proj/sdkconfig"
 
